@@ -1,4 +1,5 @@
 import Chiritori.Props.C15
+import Chiritori.Lemmas.Erase
 /-
   C16 — List items render the right lines, numbers, columns and valid JSON.
 
@@ -112,5 +113,83 @@ theorem json_escape_safe (s : List Char) : ∀ c ∈ jsonEscape s, c.toNat ≥ 3
                     · simp only [List.mem_singleton] at hc
                       rw [hc]; omega
     · exact ih c hc
+
+/-! ### the JSON block is the pretty block without its colour codes -/
+
+theorem lead_mem_bytesOf : ∀ (s : List Char) (c : Char), ABy.lead c ∈ bytesOf s → c ∈ s
+  | [], _, h => by simp [bytesOf] at h
+  | d :: ds, c, h => by
+    simp only [bytesOf, charBytes, List.cons_append, List.mem_cons, List.mem_append, List.mem_replicate] at h
+    rcases h with h | h | h
+    · injection h with h; subst h; simp
+    · exact absurd h.2 (by simp)
+    · exact List.mem_cons_of_mem _ (lead_mem_bytesOf ds c h)
+
+theorem slice_chars (s : List Char) (i j : Nat) (c : Char) (h : c ∈ charsOf (((bytesOf s).take j).drop i)) : c ∈ s :=
+  lead_mem_bytesOf s c (List.mem_of_mem_take (List.mem_of_mem_drop (charsOf_mem_lead _ c h)))
+
+theorem geom_chars (s : List Char) (start stop : Nat) (lr : Option (Nat × Nat)) (c : Char)
+    (h : c ∈ charsOf (geomOf (bytesOf s) start stop lr).pre ∨ c ∈ charsOf (geomOf (bytesOf s) start stop lr).mid ∨
+      c ∈ charsOf (geomOf (bytesOf s) start stop lr).post) : c ∈ s := by
+  unfold geomOf at h
+  rcases h with h | h | h <;> exact slice_chars s _ _ c h
+
+/-- C16, last clause, one item: for a text without carriage returns, the pretty (coloured) rendering of a region is
+    the plain rendering - the block the JSON form carries - with colour codes inserted; if the text has no escape
+    character of its own, stripping ANSI colour sequences from the pretty block gives the JSON block -/
+theorem json_block_is_pretty_block (s : List Char) (start stop : Nat) (isRemoval : Bool) (lr : Nat × Nat)
+    (h1 : BPos (bytesOf s) start) (h2 : BPos (bytesOf s) stop) (hlt : start < stop) (hcr : ∀ c ∈ s, c ≠ '\r') :
+    ∃ y x, buildItem (bytesOf s) start stop isRemoval true (some lr) = .ok y ∧
+      buildItem (bytesOf s) start stop isRemoval false (some lr) = .ok x ∧ Er y x ∧
+      ((∀ c ∈ s, c ≠ '\x1b') → stripAnsi y = x) := by
+  have hg := itemGeom_ok s start stop lr h1 h2 hlt
+  refine ⟨_, _, by unfold buildItem; rw [hg], by unfold buildItem; rw [hg], ?_, ?_⟩
+  · exact er_renderItem true isRemoval (some lr) _ (fun c hc => hcr c (geom_chars s start stop _ c hc))
+  · intro hesc
+    apply strip_er (er_renderItem true isRemoval (some lr) _ (fun c hc => hcr c (geom_chars s start stop _ c hc)))
+    exact noEsc_renderItem isRemoval (some lr) _ (fun c hc => hesc c (geom_chars s start stop _ c hc))
+
+/-- the heading of a pretty item -/
+def heading (idx : Nat) (ready : Bool) : List Char :=
+  "\n-------- [ ".toList ++ natToDigits idx ++ (if ready then " ]  Ready  ".toList else " ] Pending ".toList)
+    ++ "--------".toList ++ ['\n']
+
+/-- the pretty form: heading and block of each item in turn -/
+def prettyOf : Nat → List (Bool × List Char) → List Char
+  | _, [] => []
+  | idx, (ready, y) :: rest => heading idx ready ++ y ++ prettyOf (idx + 1) rest
+
+/-- C16, last clause, whole list: the pretty form is the sequence of headings (index, Ready / Pending) and blocks;
+    the JSON items carry, in the same order, the same status, the same line range, and the block without colours -/
+theorem pretty_vs_json (s : List Char) (lm : List Nat) (hcr : ∀ c ∈ s, c ≠ '\r') :
+    ∀ (ms : List (Marker × Bool)) (idx : Nat), Renderable (bytesOf s) ms →
+    ∃ ys items, prettyItems (bytesOf s) lm ms idx = .ok (prettyOf idx ((ms.map (·.2)).zip ys)) ∧
+      buildList (bytesOf s) lm ms = .ok items ∧ ys.length = ms.length ∧
+      ErL ys (items.map (·.block)) ∧
+      items.map (·.lineRange) = ms.map (fun m => (findLine lm m.1.start, findLine lm (m.1.stop - 1))) ∧
+      items.map (·.ready) = ms.map (·.2) ∧
+      ((∀ c ∈ s, c ≠ '\x1b') → ys.map stripAnsi = items.map (·.block))
+  | [], idx, _ => ⟨[], [], rfl, rfl, rfl, trivial, rfl, rfl, fun _ => rfl⟩
+  | (m, f) :: rest, idx, h => by
+    obtain ⟨g1, g2, g3⟩ := h (m, f) (by simp)
+    obtain ⟨y, x, hy, hx, her, hst⟩ := json_block_is_pretty_block s m.start m.stop f
+      (findLine lm m.start, findLine lm (m.stop - 1)) g1 g2 g3 hcr
+    obtain ⟨ys, items, p1, p2, p3, p4, p5, p6, p7⟩ := pretty_vs_json s lm hcr rest (idx + 1) (fun x hx => h x (by simp [hx]))
+    refine ⟨y :: ys, ⟨(findLine lm m.start, findLine lm (m.stop - 1)), x, f⟩ :: items, ?_, ?_, by simp [p3], ⟨her, p4⟩,
+      by simp [p5], by simp [p6], ?_⟩
+    · simp only [prettyItems, getLineRange_ok lm _ _ g3, hy, p1]
+      simp only [List.map_cons, List.zip_cons_cons, prettyOf]
+      unfold heading
+      simp only [List.append_assoc]
+    · simp only [buildList, getLineRange_ok lm _ _ g3, hx, p2]
+    · intro hesc
+      simp only [List.map_cons, hst hesc, p7 hesc]
+
+/-! Non-vacuity: a region with a tab and two lines; the pretty block, stripped, is the JSON block. -/
+example :
+    (match buildItem (bytesOf "a\n\tb <x>\ny</x> c\n".toList) 5 14 true true (some (2, 3)),
+           buildItem (bytesOf "a\n\tb <x>\ny</x> c\n".toList) 5 14 true false (some (2, 3)) with
+     | .ok y, .ok x => stripAnsi y == x && y != x
+     | _, _ => false) = true := by decide +kernel
 
 end Chiritori.Props.C16
